@@ -820,6 +820,15 @@ func (r *reader) read(src []byte) {
 			r.pushChar(src)
 		case intMode:
 			r.pushInteger(src)
+		case bitVectorMode:
+			bv := ReadBitVector(r.makeToken(src))
+			if 0 < len(r.stack) {
+				r.stack = append(r.stack, bv)
+			} else {
+				r.code = append(r.code, bv)
+			}
+		case sharpMode, sharpNumMode, mustArrayMode:
+			r.partial("# dispatch not terminated")
 		}
 		if 0 < len(r.stack) {
 			r.partial("list not terminated")
